@@ -108,6 +108,22 @@ class EF:
             known = dict(knownf)  # local -> known variant index / discriminant value
             blk = fn.blocks[b]
             dead = False
+
+            def look(p_):
+                """(kind, conv, remaining projection) of the carrier a place reads from, or None.  A tuple that was built
+                around a carrier (`match (result, flag) { .. }`) hands it out again through its field."""
+                if p_["l"] not in car:
+                    return None
+                ck_, cc_ = car[p_["l"]]
+                pr_ = list(p_["proj"])
+                if ck_.startswith("tup:"):
+                    _t, idx_, ck2_ = ck_.split(":", 2)
+                    if pr_ and pr_[0][0] == "field" and pr_[0][1] == int(idx_):
+                        return (ck2_, cc_, pr_[1:])
+                    if not pr_:
+                        return (ck_, cc_, pr_)
+                    return None
+                return (ck_, cc_, pr_)
             for i, s in enumerate(blk["stmts"]):
                 if s["k"] == "StorageDead":
                     car.pop(s["l"], None)
@@ -121,9 +137,8 @@ class EF:
                 k = rv["k"]
                 if k == "Use" and rv["op"].get("k") in ("copy", "move"):
                     p = rv["op"]["p"]
-                    if p["l"] in car:
-                        ck, cc = car[p["l"]]
-                        pr = p["proj"]
+                    if look(p) is not None:
+                        ck, cc, pr = look(p)
                         if not pr or (len(pr) == 1 and pr[0][0] == "deref"):
                             new = (ck, cc)
                         elif ck in ("res",) and len(pr) >= 2 and pr[-2][0] == "downcast" and pr[-2][2] == "Err" and pr[-1][0] == "field":
@@ -136,9 +151,9 @@ class EF:
                             new = None
                 elif k == "Discriminant":
                     p = rv["p"]
-                    if p["l"] in car:
-                        ck, cc = car[p["l"]]
-                        pr = [e for e in p["proj"] if e[0] != "deref"]
+                    if look(p) is not None:
+                        ck, cc, pr = look(p)
+                        pr = [e for e in pr if e[0] != "deref"]
                         if not pr:
                             if ck == "res":
                                 new = ("discr-res", cc)
@@ -150,15 +165,20 @@ class EF:
                             new = ("discr-inner", cc)
                 elif k in ("Ref", "RawPtr", "CopyForDeref"):
                     p = rv["p"]
-                    if p["l"] in car:
-                        ck, cc = car[p["l"]]
-                        pr = [e for e in p["proj"] if e[0] != "deref"]
+                    if look(p) is not None:
+                        ck, cc, pr = look(p)
+                        pr = [e for e in pr if e[0] != "deref"]
                         if not pr:
                             new = (ck, cc)
                         elif ck == "res" and len(pr) == 2 and pr[0][0] == "downcast" and pr[0][2] == "Err":
                             new = ("pay", cc)
                         elif ck == "cf" and len(pr) == 2 and pr[0][0] == "downcast" and pr[0][2] == "Break":
                             new = ("res", cc)
+                elif k == "Aggregate" and rv.get("agg") == "Tuple":
+                    for ti_, o in enumerate(rv["ops"]):
+                        if o.get("k") in ("copy", "move") and o["p"]["l"] in car and not o["p"]["proj"] and not car[o["p"]["l"]][0].startswith("tup:"):
+                            new = ("tup:%d:%s" % (ti_, car[o["p"]["l"]][0]), car[o["p"]["l"]][1])
+                            break
                 elif k == "Aggregate" and rv.get("agg") == "Adt":
                     ops = rv["ops"]
                     carried = [o for o in ops if o.get("k") in ("copy", "move") and o["p"]["l"] in car and not o["p"]["proj"]]
@@ -197,6 +217,9 @@ class EF:
                         known[dl] = known[rv["p"]["l"]]
                     elif k == "Use" and rv["op"].get("k") in ("copy", "move") and not rv["op"]["p"]["proj"] and rv["op"]["p"]["l"] in known and new is None:
                         known[dl] = known[rv["op"]["p"]["l"]]
+                    elif k == "Use" and rv["op"].get("k") == "const" and rv["op"].get("ty") == "bool" and isinstance(rv["op"].get("val"), (int, bool)) and new is None:
+                        # the flag a `matches!(result, Err(..))` leaves behind: which arm set it is known on this path
+                        known[dl] = int(rv["op"]["val"])
                 elif s["p"]["proj"]:
                     known.pop(s["p"]["l"], None)
                 if False:
